@@ -1,3 +1,10 @@
 import SSVerif.Props.C11
 open SSVerif.Lattice
 #print axioms C11_latticeOKB_iff
+#print axioms C11_lattice_acyclic
+#print axioms C11_single_start_end
+#print axioms C11_all_on_start_end_path
+#print axioms C11_links_time_consistent
+#print axioms C11_paths_are_grammar_paths
+#print axioms C11_first_best_in_lattice
+#print axioms C11_cache_same_object
